@@ -523,7 +523,18 @@ def _consistent_renames(old, new):
 
 def _declared_ghosts(txt):
     """names declared at the top level of a hint (`let ghost x`, `let x` inside a statement-level hint)"""
-    return set(re.findall(r'\blet\s+(?:ghost\s+)?(?:mut\s+)?([A-Za-z_][A-Za-z0-9_]*)', txt))
+    # only declarations at brace depth 0 of the hint are visible to later hints (a `let` inside `proof { }` is local to it)
+    out = set()
+    depth = 0
+    for m in re.finditer(r'[{}]|\blet\s+(?:ghost\s+)?(?:mut\s+)?([A-Za-z_][A-Za-z0-9_]*)', txt):
+        tok = m.group(0)
+        if tok == '{':
+            depth += 1
+        elif tok == '}':
+            depth -= 1
+        elif depth == 0 and m.group(1):
+            out.add(m.group(1))
+    return out
 
 
 def merge(annotated_code, anns, new_code, body_hints=True):
@@ -692,16 +703,27 @@ def merge(annotated_code, anns, new_code, body_hints=True):
             continue
         i = bisect.bisect_left(starts, off)
         txt = _scoped_rename(txt, i)
-        if i < len(old) and old[i].text == '}' and (i - 1) in o2n and kind != 'inline' and not _is_clause(txt):
+        stmt_hint = kind != 'inline' and not _is_clause(txt) and not re.match(r'^\s*\w+:\s*$', txt)
+        cands = []
+        if i < len(old) and old[i].text == '}' and (i - 1) in o2n and stmt_hint:
             # a hint at the very end of a block belongs to the statement before it, not to whatever follows the closing brace
             # (the two branches of an `if` may have been exchanged)
-            j = o2n[i - 1] + 1
-        elif i in o2n:
-            j = o2n[i]
-        elif i == len(old):
-            j = len(new)
-        elif (i - 1) in o2n:
-            j = o2n[i - 1] + 1
+            cands.append(o2n[i - 1] + 1)
+        if i in o2n:
+            cands.append(o2n[i])
+        if i > 0 and old[i - 1].text == '{' and (i - 1) in o2n and stmt_hint:
+            # a hint at the very start of a block whose first statement changed stays at the start of that block
+            cands.append(o2n[i - 1] + 1)
+        if i == len(old):
+            cands.append(len(new))
+        if (i - 1) in o2n:
+            cands.append(o2n[i - 1] + 1)
+        if stmt_hint:
+            # a statement-level hint goes to the first candidate that is a statement boundary of the new text
+            good = [c for c in cands if _at_stmt_boundary(new, c)]
+            cands = good[:1] if good else cands[:1]
+        if cands:
+            j = cands[0]
         else:
             # nearest matched predecessor
             k = i - 1
